@@ -77,12 +77,49 @@ def fn(file, name, kind='impl', trait=None, self_ty=None, self_args=None, nth=No
     PLAN.fns[fid] = it
     return it
 
+OPNAMES = {'Shr': ('OpShr', 'shr'), 'Add': ('OpAdd', 'add'), 'Sub': ('OpSub', 'sub'), 'BitOr': ('OpBitOr', 'bitor')}
+
+def opimpl(file, trait, self_ty, fname, self_name, self_type, rhs_type, out_type, req, ens, labels=None,
+           impl_generics='', fn_generics='', self_args=None, nth=None, props=(), rules=None, closures=None, loops=None,
+           proofs=(), status='P', where_add='', mirror=None):
+    """An operator impl of /repo (`impl <trait><Rhs> for <Self> { fn <method>(self, rhs) {..} }`).
+    Its body is extracted as the free function `fname` (receiver renamed: rule T11) and verified
+    against (req => ens).  The dispatch-trait impl used by rewritten operator sites (T3) is a one-line
+    external_body wrapper around `fname` -- trusted glue, because Verus drops vstd's iterator specs in
+    any function reachable from a trait impl method."""
+    optrait, m = OPNAMES[trait]
+    r = dict(rules or {})
+    r['self_rename'] = [self_name, self_type]
+    sub = dict(r.get('subst', {})); sub['Self::Output'] = out_type; r['subst'] = sub
+    reqs = [req] if isinstance(req, str) else list(req)
+    enss = [ens] if isinstance(ens, str) else list(ens)
+    labels = labels or [None] * len(enss)
+    fn(file, m, trait=trait, self_ty=self_ty, self_args=self_args, nth=nth, status=status, props=props, rename=fname,
+       rules=r, requires=reqs, ensures=[(l, e) if l else e for l, e in zip(labels, enss)],
+       closures=closures, loops=loops, proofs=proofs, where_add=where_add, mirror=mirror,
+       generics_add=[g for g in [fn_generics] if g])
+    conj = lambda xs: ' && '.join('(%s)' % x for x in xs) if xs else 'true'
+    raw("""
+impl%s %s<%s> for %s {
+    type Output = %s;
+    open spec fn %s_req(self, rhs: %s) -> bool { let %s = self; %s }
+    open spec fn %s_ens(self, rhs: %s, r: %s) -> bool { let %s = self; %s }
+    #[verifier::external_body]
+    fn op_%s(self, rhs: %s) -> (r: %s) { %s(self, rhs) }
+}
+""" % (impl_generics, optrait, rhs_type, self_type, out_type, m, rhs_type, self_name, conj(reqs),
+       m, rhs_type, out_type, self_name, conj(enss), m, rhs_type, out_type, fname), tag='T3-glue:' + fname)
+
+def G(at, text):
+    """ghost statements placed verbatim (not wrapped in a proof block), e.g. `let ghost x = ..;`"""
+    return {'at': at, 'text': text, 'raw': True}
+
 def load(contract_dir, only=None):
     """execute overlay files in lexical order and return the plan"""
     global PLAN
     PLAN = Plan()
     ns = {k: v for k, v in globals().items() if k in
-          ('module', 'raw', 'typedef', 'group', 'endgroup', 'fn')}
+          ('module', 'raw', 'typedef', 'group', 'endgroup', 'fn', 'opimpl', 'G')}
     for p in sorted(glob.glob(os.path.join(contract_dir, '*.py'))):
         base = os.path.basename(p)
         if only and base not in only:
